@@ -60,6 +60,8 @@ func genC02(r *gen.Rand, maxLayers int) *C02Case {
 	}
 	nBase := r.Range(1, 4)
 	bigIDs := !c.FileRoute && r.Chance(0.25)
+	listAttrs := r.Chance(0.25)
+	tagShift := r.Intn(4)
 	var baseTrees []map[string]any
 	var prev []string
 	progCfg := gen.ProgCfg{Tree: tc, Merge: true, Repeat: true, Output: true, Interp: true, StrRef: true, Plants: 1}
@@ -83,6 +85,11 @@ func genC02(r *gen.Rand, maxLayers int) *C02Case {
 		if bigIDs {
 			// 64-bit identifiers that differ only in their low bits
 			doc["uid"] = 1180591620717411300 + i*3
+		}
+		if listAttrs {
+			// list-valued attributes for list patterns (never edited by layers)
+			doc["tags"] = [][]any{{"prod"}, {"prod", "eu"}, {"dev", "eu", "x"}, {}}[(i+tagShift)%4]
+			doc["ports"] = []any{map[string]any{"pname": "app", "image": []string{"nginx", "redis"}[(i+tagShift)%2]}}
 		}
 		id := fmt.Sprintf("L0|doc%d", i)
 		add(wire.Op{Op: "MergeDocument", ID: id, Data: &wire.Tree{V: doc}}, 0, 0)
@@ -192,11 +199,27 @@ func genC02(r *gen.Rand, maxLayers int) *C02Case {
 				delete(patch, "name")
 				delete(patch, "kind")
 				delete(patch, "uid")
+				delete(patch, "tags")
+				delete(patch, "ports")
 				if len(patch) == 0 {
 					patch["z"] = l
 				}
 			}
-			if bigIDs && r.Chance(0.5) {
+			if listAttrs && r.Chance(0.5) {
+				// list patterns: every pattern entry must match SOME element —
+				// several entries may be satisfied by the same element, and a
+				// pattern may be longer than the list it is matched against
+				patch["$match"] = gen.PickAny(r, []any{
+					map[string]any{"tags": []any{"prod"}},
+					map[string]any{"tags": []any{"prod", "prod"}},
+					map[string]any{"tags": []any{"eu", "prod", "eu"}},
+					map[string]any{"tags": []any{"eu"}},
+					map[string]any{"tags": []any{}},
+					map[string]any{"ports": []any{map[string]any{"pname": "app"}, map[string]any{"image": "nginx"}}},
+					map[string]any{"ports": []any{map[string]any{"pname": "app"}, map[string]any{"pname": "app"}, map[string]any{"image": "redis"}}},
+					map[string]any{"tags": []any{"dev"}, "$invert": true},
+				})
+			} else if bigIDs && r.Chance(0.5) {
 				uid := 1180591620717411300 + r.Intn(nBase)*3
 				if r.Chance(0.3) {
 					patch["$match"] = map[string]any{"uid": uid, "$invert": true}
